@@ -44,6 +44,9 @@ def run(tier, seed, replay=None):
         r = util.rng(seed, PROP, "doc", i)
         g = schemagen.SchemaGen(r, profile="G", max_depth=3, avoid_known=False)
         doc = g.document(ndefs=r.randrange(2, 7))
+        if i % 2:
+            from . import common as _common
+            doc = _common.add_defaults(doc, r, p=0.6)   # rendered default values are part of the output
         st, _ = workloads.sample_settings(r, doc)
         if "replacements" in st:
             st["replacements"][0]["impls"] = ["Display", "FromStr", "Default"]
@@ -54,8 +57,15 @@ def run(tier, seed, replay=None):
     names = schemagen.PROP_NAMES
     for i in range(max(24, N // 3)):
         r = util.rng(seed, PROP, "hashy", i)
-        k = i % 6
-        if k == 0:      # oneOf of string-enum / const subschemas with repeated values
+        k = i % 7
+        if k == 6:      # defaults of set-, map- and vec-typed members with several elements
+            s_ = {"type": "object", "properties": {
+                "tags": {"type": "array", "uniqueItems": True, "items": {"type": "string"}, "default": r.sample(vals, r.randrange(2, 7))},
+                "nums": {"type": "array", "uniqueItems": True, "items": {"type": "integer"}, "default": r.sample(range(50), 5)},
+                "labels": {"type": "object", "additionalProperties": {"type": "string"},
+                           "default": {v_: v_.upper() for v_ in r.sample(vals, 4)}},
+                "list": {"type": "array", "items": {"type": "string"}, "default": r.sample(vals, 3)}}}
+        elif k == 0:      # oneOf of string-enum / const subschemas with repeated values
             branches = []
             for _ in range(r.randrange(2, 5)):
                 branches.append(r.choice([{"type": "string", "enum": r.sample(vals, r.randrange(1, 5))},
